@@ -110,6 +110,7 @@ def shards(tier, seed):
     for ti in range(len(TEMPLATES)):
         out += dd.residue_shards("fragedit-AC", "fe", "AC", 16 if d["FE"] > 1 else 2, {"t": ti, "edits": d["FE"]})
     out += dd.residue_shards("transform-sensitive-AC", "ts", "AC", 16)
+    out += dd.residue_shards("post-AC", "post", "AC", 16, {"more": 1 if tier == "quick" else 2})
     lo, hi = WINDOW_RANGE[tier]
     for tok in ("AC", "HS"):
         out += dd.residue_shards("window-" + tok, "win", tok, 8, {"lo": lo, "hi": hi})
@@ -124,6 +125,10 @@ def run_shard(sh):
     st = Stats()
     if sh["kind"] == "seq":
         cases = dd.seq_cases(sh, ALPHABETS)
+    elif sh["kind"] == "post":
+        from mc.props import c04
+
+        cases = ({"part": sh["part"], "tok": sh["tok"], "text": t} for t in dd.sliced(c04.post_documents(sh["more"]), sh["r"], sh["n"]))
     elif sh["kind"] == "ts":
         cases = ({"part": sh["part"], "tok": sh["tok"], "text": t} for t in dd.sliced(docspace.ts_documents(3), sh["r"], sh["n"]))
     elif sh["kind"] == "win":
